@@ -14,7 +14,7 @@
 mod cat;
 mod dd;
 
-use mc_core::{self as mc, json, Harness, Job, Plan, Tier, Value};
+use mc_core::{self as mc, json, Harness, Job, Plan, Tier};
 use smartcore::linalg::naive::dense_matrix::DenseMatrix;
 use smartcore::math::distance::euclidian::Euclidian;
 use smartcore::math::distance::hamming::Hamming;
@@ -277,6 +277,13 @@ fn headroom(comp: &'static str, ratio: f64) {
     mc::count(name);
 }
 
+/// Development aid: `C17_CALIB=<fraction>` prints every in-range case that uses more than that
+/// fraction of its tolerance (how the headroom table in NOTES.md was measured).
+fn calib_threshold() -> Option<f64> {
+    static THR: std::sync::OnceLock<Option<f64>> = std::sync::OnceLock::new();
+    *THR.get_or_init(|| std::env::var("C17_CALIB").ok().and_then(|v| v.parse::<f64>().ok()))
+}
+
 fn site(comp: &str, clause: &str, class: Option<&'static str>) -> String {
     format!("{}.distance:{}", comp, class.unwrap_or(clause))
 }
@@ -331,7 +338,7 @@ fn judge_pair<T: Fl>(comp: &'static str, label: &str, class: Option<&'static str
             );
             ok = false;
         } else if class.is_none() {
-            if std::env::var("C17_CALIB").ok().and_then(|v| v.parse::<f64>().ok()).map(|thr| err / tol > thr).unwrap_or(false) {
+            if calib_threshold().map(|thr| err / tol > thr).unwrap_or(false) {
                 use std::io::Write;
                 let line = format!("CALIB {} [{}] ratio {:.4} (err {:.2} eps, allowed {:.1}) {}\n", label, T::NAME, err / tol, err / (T::EPS * refv), tol_units, ctx());
                 let _ = std::io::stderr().write_all(line.as_bytes());
@@ -923,6 +930,3 @@ fn main() {
     }
     mc::main(C17)
 }
-
-#[allow(dead_code)]
-fn _v(_: Value) {}
